@@ -19,6 +19,10 @@ from ..core import HarnessError, R, explore, finish, fresh_dir
 ID = "C08"
 MODULE = "mc.checks.c08"
 TOKENS = "CIBWOFHLTS"  # code, indented, blank, whitespace-only, own comment, foreign comment, header, form-feed line, header with trailing blanks, shebang-like body line
+# eleventh token, multi-line-only styles: a comment block with a tag whose closing line carries code after the terminator, followed by a code
+# line that ends in a comment.  The block cannot be cut out in whole lines, so it is body text, not a replaceable header.
+XTOKEN = "X"
+X_STYLES = ("c", "cpp-multi", "html", "jinja", "ml", "css", "xquery", "vst", "ftl", "handlebars", "aspx", "bibtex")
 BOM = "﻿"
 
 STYLES = {
@@ -80,6 +84,9 @@ def token_lines(tok, i, st):
         sh = shebangs_of(_f)
         # a body line that merely looks like a first-line declaration (only the very first line of a file is one)
         return [f"{sh[-1]} body_line_{i}" if sh else f"shebangless_body_{i} = {i}"]
+    if tok == "X":
+        mid = f"{multi[1]} SPDX-License-Identifier: ISC".strip() if multi[1] else "SPDX-License-Identifier: ISC"
+        return [multi[0], (" " if multi[1] else "") + mid, f"{multi[2]} after_terminator_{i} = {i}", f"later_{i} = {i} {multi[0]} c {multi[2].strip()}"]
     if tok in "HT":
         tags = [f"SPDX-FileCopyrightText: 200{i} Old{i}", f"SPDX-License-Identifier: ISC"]
         pad = "  " if tok == "T" else ""
@@ -116,15 +123,15 @@ def split_by_construction(seq, st, prefix_lines, replace):
 
 
 def bounds(tier, seed):
-    return {"tokens": list(TOKENS), "max_len": {"python,c": 3 if tier == "quick" else 4, "other styles": 2 if tier == "quick" else 3},
+    return {"tokens": list(TOKENS) + ["X (multi-line-only styles)"], "max_len": {"python,c": 3 if tier == "quick" else 4, "other styles": 2 if tier == "quick" else 3},
             "styles": list(all_styles(tier)), "prefixes": ["none", "BOM", "shebang (styles that define one)", "BOM+shebang"],
             "line_endings": ["LF", "CRLF", "CR"], "final_newline": [True, False], "modes": ["replace", "--no-replace"],
             "seed_slice": "sequences of the next length starting with TOKENS[seed % 10] for python" if tier == "quick" else None}
 
 
-def seqs(n):
+def seqs(n, alphabet=TOKENS):
     for k in range(0, n + 1):
-        for tup in itertools.product(TOKENS, repeat=k):
+        for tup in itertools.product(alphabet, repeat=k):
             yield "".join(tup)
 
 
@@ -133,7 +140,7 @@ def cases(tier, seed):
     shallow = 2 if tier == "quick" else 3
     for name in all_styles(tier):
         n = deep if name in ("python", "c") else shallow
-        for s in seqs(n):
+        for s in seqs(n, TOKENS + XTOKEN if name in X_STYLES else TOKENS):
             for prefix in ("none", "bom", "shebang", "bom+shebang", "two-shebangs"):
                 for ending in ("\n", "\r\n", "\r"):
                     for final in (True, False):
@@ -277,9 +284,9 @@ def evaluate(c) -> R:
                 if t not in middle:
                     r.violation(f"new-tag-outside-header|{sig}", f"{label}: {t!r} not inside the header block; new file {new_n!r}")
             for i, tok in enumerate(seq):
-                if tok in "CIFS" and not (h_lo <= i <= h_up):
-                    body = token_lines(tok, i, st)[0].strip()
-                    if body in middle:
+                if tok in "CIFSX" and not (h_lo <= i <= h_up):
+                    body = token_lines(tok, i, st)[-1 if tok == "X" else 0].strip()
+                    if body in middle or (tok == "X" and f"after_terminator_{i} = {i}" in middle):
                         r.violation(f"body-line-inside-header|{sig}", f"{label}: body line {body!r} ended up inside the header block {middle!r}")
             for line in middle.split("\n"):
                 s = line.strip()
